@@ -64,6 +64,7 @@ fn programs(k: Kind, alphabet: &[TOp], maxlen: usize) -> Vec<Program> {
     out
 }
 
+#[allow(dead_code)]
 fn same_universe(a: Kind, b: Kind) -> bool {
     matches!(a, Kind::T | Kind::F) == matches!(b, Kind::T | Kind::F)
 }
@@ -123,6 +124,19 @@ fn gen_sets(prop: &str, tier: &str) -> Vec<ProgSet> {
                 let ps4: Vec<Program> = k4.iter().flat_map(|k| programs(*k, &[Read, Clone, Drop], 1)).collect();
                 for m in multisets(&ps4, 4) {
                     sets.push(ProgSet { programs: m, writer: None, main_reads: false, readers_see_only_v0: false, bound: Some(2), expect_facts: vec![] });
+                }
+            }
+            // threads that clone through a shared reference to ONE handle (the count is 1 while they race)
+            let bps: Vec<Program> = programs(Kind::B, &[Read, Clone, CloneArc, Drop], if thorough { 3 } else { 2 });
+            let aps: Vec<Program> = programs(Kind::A, &[Read, Clone, Drop], 1);
+            for (i, p1) in bps.iter().enumerate() {
+                for p2 in bps[i..].iter().chain(aps.iter()) {
+                    sets.push(ProgSet { programs: vec![p1.clone(), p2.clone()], writer: None, main_reads: true, readers_see_only_v0: false, bound: None, expect_facts: vec![] });
+                }
+            }
+            if thorough {
+                for m3 in multisets(&programs(Kind::B, &[Read, Clone, Drop], 1), 3) {
+                    sets.push(ProgSet { programs: m3, writer: None, main_reads: true, readers_see_only_v0: false, bound: Some(3), expect_facts: vec![] });
                 }
             }
             // simplest first across the groups, so that a wall-clock cap cuts every group proportionally
@@ -285,9 +299,23 @@ fn run_set(set: &ProgSet) -> SetResult {
                     run_program(i as u32 + 1, &s.programs[i], h, s.writer == Some(i), rules);
                 }));
             }
-            main_thread_part(mainh, set2.main_reads, rules);
-            for j in joins {
-                j.join().unwrap();
+            if let LH::B(p) = mainh {
+                // shared-reference sets: the handle must outlive the threads that borrow it
+                for j in joins {
+                    j.join().unwrap();
+                }
+                bridge::sync_tid();
+                let arc: triomphe::Arc<LP> = *vrt::arena::suspend(|| unsafe { Box::from_raw(p as *mut triomphe::Arc<LP>) });
+                let c = triomphe::Arc::count(&arc);
+                if c != 1 {
+                    bridge::fail(bridge::CONSERVE, format!("every thread has released what it cloned, one handle is left, and the count is {}", c));
+                }
+                main_thread_part(LH::A(arc), true, rules);
+            } else {
+                main_thread_part(mainh, set2.main_reads, rules);
+                for j in joins {
+                    j.join().unwrap();
+                }
             }
             bridge::sync_tid();
             let out = final_oracle(id, block);
